@@ -745,4 +745,884 @@ theorem good_ifStmt (F : FloatOps) (B : List String) (pos bp : Pos) (c : Expr) (
           simp only [Bool.not_true, Bool.false_eq_true, if_false]
           exact sm_pure_run _ _ _
 
+/-! ### `if true { … }`: the compiler emits the body only -/
+
+theorem isTrueLit_inv {c : Expr} (h : isTrueLit c = true) : ∃ p, c = .bool p true := by
+  cases c with
+  | bool p b =>
+    cases b with
+    | true => exact ⟨p, rfl⟩
+    | false => simp [isTrueLit] at h
+  | _ => simp [isTrueLit] at h
+
+theorem good_ifTrueStmt (F : FloatOps) (B : List String) (pos bp p : Pos) (body : List Stmt) (els : Option Stmt) (nT : Nat)
+    (hT : GoodB F B nT (Compile.blockOf body (compileStmts body)) (fun fuel env => Sem.execBlock F fuel env body)) :
+    GoodB F B nT (compileStmt (.if_ pos none (.bool p true) bp body els))
+      (fun fuel env => Sem.execStmt F fuel env (.if_ pos none (.bool p true) bp body els)) := by
+  rw [Compile.compileStmt_eq]
+  simp only
+  refine good_withBlock F B B _ _ (fun fuel env => Sem.execBlock F fuel env body) _ hT.toC.pure_bind ?_
+  intro fuel env ss t c' env' ss' t' hsem
+  cases fuel with
+  | zero => exact (execStmt_zero' hsem).elim
+  | succ fuel =>
+    rw [execStmt_if] at hsem
+    obtain ⟨⟨c0, env1⟩, ss0, t0, h0, hsem⟩ := sm_bind_inv hsem
+    obtain ⟨hce, rfl, rfl⟩ := sm_pure_inv h0
+    simp only [Prod.mk.injEq] at hce
+    obtain ⟨rfl, rfl⟩ := hce
+    simp only at hsem
+    obtain ⟨rc, ss1, t1, hev, hsem⟩ := sm_bind_inv hsem
+    cases fuel with
+    | zero =>
+      have h0 : Sem.evalExpr F 0 ([] :: env) (.bool p true) = Sem.liftM (unsupported "sem: fuel") := rfl
+      rw [h0] at hev; exact (sm_unsupported_ne hev).elim
+    | succ f =>
+      have h1 : Sem.evalExpr F (f + 1) ([] :: env) (.bool p true) = pure (.val (.bool true)) := rfl
+      rw [h1] at hev
+      obtain ⟨hrc, rfl, rfl⟩ := sm_pure_inv hev
+      subst hrc
+      simp only at hsem
+      obtain ⟨fl, ss2, t2, hfl, hsem⟩ := sm_bind_inv hsem
+      obtain ⟨rfl, hfl'⟩ := sm_liftM_inv hfl
+      have hf : exec (isFalsy (.bool true)) t = (.ok false, t) := rfl
+      rw [hf] at hfl'
+      simp only [Prod.mk.injEq, Except.ok.injEq] at hfl'
+      obtain ⟨rfl, rfl⟩ := hfl'
+      simp only [Bool.not_false, if_true] at hsem
+      obtain ⟨⟨c1, envX⟩, ss3, t3, hb, hsem⟩ := sm_bind_inv hsem
+      obtain ⟨hce, rfl, rfl⟩ := sm_pure_inv hsem
+      simp only [Prod.mk.injEq] at hce
+      obtain ⟨rfl, rfl⟩ := hce
+      exact ⟨rfl, f + 1, envX, hb⟩
+
+/-! ### `if init; c { … }` -/
+
+/-- two compile actions in sequence against two reference computations in sequence -/
+theorem good_seq (F : FloatOps) (B B1 B2 : List String) (n1 n2 : Nat) (act1 act2 : Compile.CM Unit)
+    (sem1 sem2 : Nat → Sem.Env → Sem.SM (Sem.Comp × Sem.Env))
+    (h1 : GoodC F B B1 n1 act1 sem1) (h2 : GoodC F B1 B2 n2 act2 sem2) :
+    GoodC F B B2 (max n1 n2) (act1 >>= fun _ => act2) (fun fuel env => do
+      let (c, env') ← sem1 fuel env
+      match c with
+      | .normal => sem2 fuel env'
+      | c => pure (c, env')) := by
+  intro cs cs' hc hcov hok
+  obtain ⟨_, cs1, hc1, hc2⟩ := bind_inv hc
+  obtain ⟨hse1, hok1, hcov1, hsim1⟩ := h1 cs cs1 hc1 hcov hok
+  obtain ⟨hse2, hok2, hcov2, hsim2⟩ := h2 cs1 cs' hc2 hcov1 hok1
+  refine ⟨hse1.trans hse2, hok2, hcov2, ?_⟩
+  intro fuel K code bp L env binds s t ss ss' c env' t' hK hcode hvm hip hsp hL hst hdy hsem
+  dsimp only at hsem
+  obtain ⟨⟨c1, env1⟩, ss1, t1, hs1, hsem⟩ := sm_bind_inv hsem
+  obtain ⟨rfl, out1⟩ := hsim1 fuel K code bp L env binds s t ss ss1 c1 env1 t1 (Compile.IsPre.trans hse2.cpre hK)
+    (hcode.sub hse2.pre (Nat.le_refl _)) hvm hip (by omega) (Nat.le_trans hse2.tabs.fnMax hL) hst hdy hs1
+  cases c1 with
+  | normal =>
+    simp only at hsem
+    obtain ⟨binds1, s1, hr1, hf1, hip1, hsp1, hsub1, hst1, hdy1⟩ := out1
+    obtain ⟨rfl, out2⟩ := hsim2 fuel K code bp L env1 binds1 s1 t1 ss ss' c env' t' hK
+      (hcode.sub (Pre.refl _) hse1.pre.1) (hvm.of_frm hf1 hsp1) hip1 (by omega) hL hst1 hdy1 hsem
+    exact ⟨rfl, OutS.via hr1 hf1 hsp1 hsub1 out2⟩
+  | ret v =>
+    simp only at hsem
+    obtain ⟨hce, rfl, rfl⟩ := sm_pure_inv hsem
+    simp only [Prod.mk.injEq] at hce
+    obtain ⟨rfl, rfl⟩ := hce
+    exact ⟨rfl, out1.abrupt (by simp)⟩
+  | thr a =>
+    simp only at hsem
+    obtain ⟨hce, rfl, rfl⟩ := sm_pure_inv hsem
+    simp only [Prod.mk.injEq] at hce
+    obtain ⟨rfl, rfl⟩ := hce
+    exact ⟨rfl, out1.abrupt (by simp)⟩
+  | brk => exact out1.elim
+  | cont => exact out1.elim
+
+theorem execStmt_ifInit (F : FloatOps) (fuel : Nat) (env : Sem.Env) (pos : Pos) (i : Stmt) (bp : Pos) (c : Expr)
+    (body : List Stmt) (else_ : Option Stmt) :
+    Sem.execStmt F (fuel + 1) env (.if_ pos (some i) c bp body else_) = (do
+      let (c0, env1) ← Sem.execStmt F fuel ([] :: env) i
+      match c0 with
+      | .normal =>
+        match (← Sem.evalExpr F fuel env1 c) with
+        | .thr a => pure (.thr a, env)
+        | .val cv =>
+          if !(← Sem.liftM (isFalsy cv)) then do
+            let (c, _) ← Sem.execBlock F fuel env1 body
+            pure (c, env)
+          else
+            match else_ with
+            | some e => do let (c, _) ← Sem.execStmt F fuel env1 e; pure (c, env)
+            | none => pure (.normal, env)
+      | c => pure (c, env)) := rfl
+
+theorem good_ifInitStmt (F : FloatOps) (B B1 : List String) (pos bp : Pos) (i : Stmt) (c : Expr) (body : List Stmt)
+    (hFc : ExprF (bnd B1) c = true) (hnb : isBoolLit c = false) (nI nT : Nat)
+    (hI : GoodC F B B1 nI (compileStmt i) (fun fuel env => Sem.execStmt F fuel env i))
+    (hT : GoodB F B1 nT (Compile.blockOf body (compileStmts body)) (fun fuel env => Sem.execBlock F fuel env body)) :
+    GoodB F B (max nI (max (need c) nT)) (compileStmt (.if_ pos (some i) c bp body none))
+      (fun fuel env => Sem.execStmt F fuel env (.if_ pos (some i) c bp body none)) := by
+  have hin := good_ifnoelse F B1 pos c hFc nT _ _ hT
+  rw [Compile.compileStmt_eq]
+  simp only
+  refine good_withBlock F B B1 _ _ (fun fuel env => do
+        let (c0, env1) ← Sem.execStmt F fuel env i
+        match c0 with
+        | .normal => (do
+            match (← Sem.evalExpr F fuel env1 c) with
+            | .thr a => pure (.thr a, env1)
+            | .val cv => if !(← Sem.liftM (isFalsy cv)) then Sem.execBlock F fuel env1 body else pure (.normal, env1))
+        | c0 => pure (c0, env1))
+      _ ?_ ?_
+  · cases c with
+    | bool p b => simp [isBoolLit] at hnb
+    | _ => exact good_seq F B B1 B1 _ _ _ _ _ _ hI hin.toC
+  · intro fuel env ss t c' env' ss' t' hsem
+    cases fuel with
+    | zero => exact (execStmt_zero' hsem).elim
+    | succ fuel =>
+      rw [execStmt_ifInit] at hsem
+      obtain ⟨⟨c0, env1⟩, ss0, t0, h0, hsem⟩ := sm_bind_inv hsem
+      cases c0 with
+      | normal =>
+        simp only at hsem
+        obtain ⟨rc, ss1, t1, hev, hsem⟩ := sm_bind_inv hsem
+        cases rc with
+        | thr a =>
+          obtain ⟨hce, rfl, rfl⟩ := sm_pure_inv hsem
+          simp only [Prod.mk.injEq] at hce
+          obtain ⟨rfl, rfl⟩ := hce
+          refine ⟨rfl, fuel, env1, ?_⟩
+          rw [sm_bind_run h0]
+          simp only
+          rw [sm_bind_run hev]
+          exact sm_pure_run _ _ _
+        | val cv =>
+          simp only at hsem
+          obtain ⟨fl, ss2, t2, hfl, hsem⟩ := sm_bind_inv hsem
+          cases fl with
+          | false =>
+            simp only [Bool.not_false, if_true] at hsem
+            obtain ⟨⟨c1, envX⟩, ss3, t3, hb, hsem⟩ := sm_bind_inv hsem
+            obtain ⟨hce, rfl, rfl⟩ := sm_pure_inv hsem
+            simp only [Prod.mk.injEq] at hce
+            obtain ⟨rfl, rfl⟩ := hce
+            refine ⟨rfl, fuel, envX, ?_⟩
+            rw [sm_bind_run h0]
+            simp only
+            rw [sm_bind_run hev]
+            simp only
+            rw [sm_bind_run hfl]
+            simp only [Bool.not_false, if_true]
+            exact hb
+          | true =>
+            simp only [Bool.not_true, Bool.false_eq_true, if_false] at hsem
+            obtain ⟨hce, rfl, rfl⟩ := sm_pure_inv hsem
+            simp only [Prod.mk.injEq] at hce
+            obtain ⟨rfl, rfl⟩ := hce
+            refine ⟨rfl, fuel, env1, ?_⟩
+            rw [sm_bind_run h0]
+            simp only
+            rw [sm_bind_run hev]
+            simp only
+            rw [sm_bind_run hfl]
+            simp only [Bool.not_true, Bool.false_eq_true, if_false]
+            exact sm_pure_run _ _ _
+      | brk =>
+        simp only at hsem
+        obtain ⟨hce, rfl, rfl⟩ := sm_pure_inv hsem
+        simp only [Prod.mk.injEq] at hce
+        obtain ⟨rfl, rfl⟩ := hce
+        refine ⟨rfl, fuel, env1, ?_⟩
+        rw [sm_bind_run h0]
+        exact sm_pure_run _ _ _
+      | cont =>
+        simp only at hsem
+        obtain ⟨hce, rfl, rfl⟩ := sm_pure_inv hsem
+        simp only [Prod.mk.injEq] at hce
+        obtain ⟨rfl, rfl⟩ := hce
+        refine ⟨rfl, fuel, env1, ?_⟩
+        rw [sm_bind_run h0]
+        exact sm_pure_run _ _ _
+      | ret v =>
+        simp only at hsem
+        obtain ⟨hce, rfl, rfl⟩ := sm_pure_inv hsem
+        simp only [Prod.mk.injEq] at hce
+        obtain ⟨rfl, rfl⟩ := hce
+        refine ⟨rfl, fuel, env1, ?_⟩
+        rw [sm_bind_run h0]
+        exact sm_pure_run _ _ _
+      | thr a =>
+        simp only at hsem
+        obtain ⟨hce, rfl, rfl⟩ := sm_pure_inv hsem
+        simp only [Prod.mk.injEq] at hce
+        obtain ⟨rfl, rfl⟩ := hce
+        refine ⟨rfl, fuel, env1, ?_⟩
+        rw [sm_bind_run h0]
+        exact sm_pure_run _ _ _
+
+theorem good_ifInitElseStmt (F : FloatOps) (B B1 : List String) (pos bp : Pos) (i : Stmt) (c : Expr) (body : List Stmt)
+    (e : Stmt) (hFc : ExprF (bnd B1) c = true) (hnb : isBoolLit c = false) (nI nT nE : Nat)
+    (hI : GoodC F B B1 nI (compileStmt i) (fun fuel env => Sem.execStmt F fuel env i))
+    (hT : GoodB F B1 nT (Compile.blockOf body (compileStmts body)) (fun fuel env => Sem.execBlock F fuel env body))
+    (hE : GoodB F B1 nE (compileStmt e) (fun fuel env => Sem.execStmt F fuel env e)) :
+    GoodB F B (max nI (max (need c) (max nT nE))) (compileStmt (.if_ pos (some i) c bp body (some e)))
+      (fun fuel env => Sem.execStmt F fuel env (.if_ pos (some i) c bp body (some e))) := by
+  have hin := good_ifelse F B1 pos c hFc nT nE _ _ _ _ hT hE
+  rw [Compile.compileStmt_eq]
+  simp only
+  refine good_withBlock F B B1 _ _ (fun fuel env => do
+        let (c0, env1) ← Sem.execStmt F fuel env i
+        match c0 with
+        | .normal => (do
+            match (← Sem.evalExpr F fuel env1 c) with
+            | .thr a => pure (.thr a, env1)
+            | .val cv => if !(← Sem.liftM (isFalsy cv)) then Sem.execBlock F fuel env1 body else Sem.execStmt F fuel env1 e)
+        | c0 => pure (c0, env1))
+      _ ?_ ?_
+  · cases c with
+    | bool p b => simp [isBoolLit] at hnb
+    | _ => exact good_seq F B B1 B1 _ _ _ _ _ _ hI hin.toC
+  · intro fuel env ss t c' env' ss' t' hsem
+    cases fuel with
+    | zero => exact (execStmt_zero' hsem).elim
+    | succ fuel =>
+      rw [execStmt_ifInit] at hsem
+      obtain ⟨⟨c0, env1⟩, ss0, t0, h0, hsem⟩ := sm_bind_inv hsem
+      cases c0 with
+      | normal =>
+        simp only at hsem
+        obtain ⟨rc, ss1, t1, hev, hsem⟩ := sm_bind_inv hsem
+        cases rc with
+        | thr a =>
+          obtain ⟨hce, rfl, rfl⟩ := sm_pure_inv hsem
+          simp only [Prod.mk.injEq] at hce
+          obtain ⟨rfl, rfl⟩ := hce
+          refine ⟨rfl, fuel, env1, ?_⟩
+          rw [sm_bind_run h0]
+          simp only
+          rw [sm_bind_run hev]
+          exact sm_pure_run _ _ _
+        | val cv =>
+          simp only at hsem
+          obtain ⟨fl, ss2, t2, hfl, hsem⟩ := sm_bind_inv hsem
+          cases fl with
+          | false =>
+            simp only [Bool.not_false, if_true] at hsem
+            obtain ⟨⟨c1, envX⟩, ss3, t3, hb, hsem⟩ := sm_bind_inv hsem
+            obtain ⟨hce, rfl, rfl⟩ := sm_pure_inv hsem
+            simp only [Prod.mk.injEq] at hce
+            obtain ⟨rfl, rfl⟩ := hce
+            refine ⟨rfl, fuel, envX, ?_⟩
+            rw [sm_bind_run h0]
+            simp only
+            rw [sm_bind_run hev]
+            simp only
+            rw [sm_bind_run hfl]
+            simp only [Bool.not_false, if_true]
+            exact hb
+          | true =>
+            simp only [Bool.not_true, Bool.false_eq_true, if_false] at hsem
+            obtain ⟨⟨c1, envX⟩, ss3, t3, hb, hsem⟩ := sm_bind_inv hsem
+            obtain ⟨hce, rfl, rfl⟩ := sm_pure_inv hsem
+            simp only [Prod.mk.injEq] at hce
+            obtain ⟨rfl, rfl⟩ := hce
+            refine ⟨rfl, fuel, envX, ?_⟩
+            rw [sm_bind_run h0]
+            simp only
+            rw [sm_bind_run hev]
+            simp only
+            rw [sm_bind_run hfl]
+            simp only [Bool.not_true, Bool.false_eq_true, if_false]
+            exact hb
+      | brk =>
+        simp only at hsem
+        obtain ⟨hce, rfl, rfl⟩ := sm_pure_inv hsem
+        simp only [Prod.mk.injEq] at hce
+        obtain ⟨rfl, rfl⟩ := hce
+        refine ⟨rfl, fuel, env1, ?_⟩
+        rw [sm_bind_run h0]
+        exact sm_pure_run _ _ _
+      | cont =>
+        simp only at hsem
+        obtain ⟨hce, rfl, rfl⟩ := sm_pure_inv hsem
+        simp only [Prod.mk.injEq] at hce
+        obtain ⟨rfl, rfl⟩ := hce
+        refine ⟨rfl, fuel, env1, ?_⟩
+        rw [sm_bind_run h0]
+        exact sm_pure_run _ _ _
+      | ret v =>
+        simp only at hsem
+        obtain ⟨hce, rfl, rfl⟩ := sm_pure_inv hsem
+        simp only [Prod.mk.injEq] at hce
+        obtain ⟨rfl, rfl⟩ := hce
+        refine ⟨rfl, fuel, env1, ?_⟩
+        rw [sm_bind_run h0]
+        exact sm_pure_run _ _ _
+      | thr a =>
+        simp only at hsem
+        obtain ⟨hce, rfl, rfl⟩ := sm_pure_inv hsem
+        simp only [Prod.mk.injEq] at hce
+        obtain ⟨rfl, rfl⟩ := hce
+        refine ⟨rfl, fuel, env1, ?_⟩
+        rw [sm_bind_run h0]
+        exact sm_pure_run _ _ _
+
+/-! ### `if false { … }`: a JUMP over the body that is not compiled -/
+
+theorem isFalseLit_inv {c : Expr} (h : isFalseLit c = true) : ∃ p, c = .bool p false := by
+  cases c with
+  | bool p b =>
+    cases b with
+    | false => exact ⟨p, rfl⟩
+    | true => simp [isFalseLit] at h
+  | _ => simp [isFalseLit] at h
+
+theorem good_ifFalse (F : FloatOps) (B : List String) (pos : Pos) :
+    GoodB F B 0 (do
+        let j ← Compile.emit pos Compile.OpJump [0]
+        Compile.changeOperand j [(← Compile.curPos)])
+      (fun _ env => pure (.normal, env)) := by
+  intro cs cs' hc hcov hok
+  obtain ⟨j1, cs2, hj1, hc⟩ := bind_inv hc
+  obtain ⟨x1, cs3, hx1, hc⟩ := bind_inv hc
+  obtain ⟨rfl, rfl⟩ := curPos_inv hx1
+  have she1 := Shape.of_emit hj1
+  have hok2 := hok.of_shape she1
+  obtain ⟨bsj1, hbsj1, hjp1, e2⟩ := emit_inv hj1
+  obtain ⟨_, c1, c2, c3, c4, rfl, _⟩ := mk_w4 Compile.OpJump rfl _ _ hbsj1
+  obtain ⟨opb1, bs1, hopb1, hbs1, e5⟩ := changeOperand_inv hc
+  have hsz2 : cs3.insts.size = cs.insts.size + 5 := by rw [e2]; simp
+  have hop1 : cs3.insts[cs.insts.size]? = some (UInt8.ofNat Compile.OpJump) := by
+    rw [e2]; exact emit_bytes (cs := cs) _ 0 (by simp)
+  have hopb1' : opb1 = UInt8.ofNat Compile.OpJump := by
+    rw [hjp1, hop1] at hopb1
+    injection hopb1 with h; exact h.symm
+  rw [hopb1'] at hbs1
+  obtain ⟨_, b1, b2, b3, b4, rfl, hdec1⟩ := mk_w4 Compile.OpJump rfl _ _ hbs1
+  simp only [Int.toNat_natCast] at hdec1
+  have hsz' : cs'.insts.size = cs3.insts.size := by rw [e5]; exact Compile.size_patch _ _ _
+  have hins' : cs'.insts = Compile.patch cs3.insts cs.insts.size [UInt8.ofNat Compile.OpJump, b1, b2, b3, b4] := by
+    rw [e5, hjp1]
+  have hse : StEff cs cs' := by
+    rw [e5]; exact (StEff.of_shape she1 hok.ne).patch _ _ (by rw [hjp1]; exact Nat.le_refl _)
+  have ht' : cs'.tables = cs3.tables := by rw [e5]
+  have ht2 : cs3.tables = cs.tables := by rw [she1.eq]
+  have htl : Tl cs.tables cs'.tables := by rw [ht', ht2]; exact Tl.refl _
+  have hok' : CsOK cs' := hok2.of_tables ht' (by rw [e5])
+  refine ⟨hse, hok', htl, ?_⟩
+  intro fuel K code bp L env binds s t ss ss' cc env' t' hK hcode hvm hip hsp hL hst hdy hsem
+  dsimp only at hsem
+  obtain ⟨hce, rfl, rfl⟩ := sm_pure_inv hsem
+  simp only [Prod.mk.injEq] at hce
+  obtain ⟨rfl, rfl⟩ := hce
+  have hcj1 : ∀ k (hk : k < 5), code.insts[cs.insts.size + k]? =
+      [UInt8.ofNat Compile.OpJump, b1, b2, b3, b4][k]? := by
+    intro k hk
+    rw [hcode _ (by omega) (by omega), hins']
+    exact Compile.patch_get_mid _ _ _ _ (by simpa using hk) (by simp; omega)
+  obtain ⟨s4, hrun4, hs4, hh4, hip4, hsp4, hst4⟩ := step_jump F hvm.code cs.insts.size hip _ b1 b2 b3 b4
+    (by simpa using hcj1 0 (by omega)) rfl
+    (by simpa using hcj1 1 (by omega)) (by simpa using hcj1 2 (by omega))
+    (by simpa using hcj1 3 (by omega)) (by simpa using hcj1 4 (by omega))
+  have hf : Frm s s4 bp L := ⟨hs4, hh4, by rw [hst4], fun j _ _ => by rw [hst4]⟩
+  have hni' : nextIndex cs'.tables = nextIndex cs.tables := htl.nextIndex
+  have hl' : localIdx cs' = localIdx cs := localIdx_of_tl htl
+  refine ⟨rfl, binds, s4, Reach.step hvm.abort hrun4, hf, by rw [hdec1] at hip4; rw [hsz']; exact hip4, hsp4,
+    fun _ h => h, ?_, ?_⟩
+  · rw [hl', hni']; exact hst
+  · exact ⟨fun i a hm => by
+      obtain ⟨h0, v, hv1, hv2, hv3⟩ := hdy.cell i a hm
+      exact ⟨by rw [hh4]; exact h0, v, hv1, by rw [hst4]; exact hv2, hv3⟩, hdy.rel.of_eq hh4⟩
+
+set_option maxHeartbeats 1600000 in
+theorem good_ifFalseElse (F : FloatOps) (B : List String) (pos : Pos) (nE : Nat) (actE : Compile.CM Unit)
+    (semE : Nat → Sem.Env → Sem.SM (Sem.Comp × Sem.Env)) (hE : GoodB F B nE actE semE) :
+    GoodB F B nE (do
+        let j ← Compile.emit pos Compile.OpJump [0]
+        let j2 ← Compile.emit pos Compile.OpJump [0]
+        Compile.changeOperand j [(← Compile.curPos)]
+        actE
+        Compile.changeOperand j2 [(← Compile.curPos)]) semE := by
+  intro cs cs' hc hcov hok
+  obtain ⟨j1, cs2, hj1, hc⟩ := bind_inv hc
+  obtain ⟨j2, cs3', hj2, hc⟩ := bind_inv hc
+  obtain ⟨x1, cs3, hx1, hc⟩ := bind_inv hc
+  obtain ⟨rfl, rfl⟩ := curPos_inv hx1
+  obtain ⟨_, cs4, hp1, hc⟩ := bind_inv hc
+  obtain ⟨_, cs5', hcf, hc⟩ := bind_inv hc
+  obtain ⟨x2, cs5, hx2, hc⟩ := bind_inv hc
+  obtain ⟨rfl, rfl⟩ := curPos_inv hx2
+  have she1 := Shape.of_emit hj1
+  have she2 := Shape.of_emit hj2
+  have hok2 := hok.of_shape she1
+  have hok3 := hok2.of_shape she2
+  obtain ⟨bsj1, hbsj1, hjp1, e2⟩ := emit_inv hj1
+  obtain ⟨bsj2, hbsj2, hjp2, e3⟩ := emit_inv hj2
+  obtain ⟨_, c1, c2, c3, c4, rfl, _⟩ := mk_w4 Compile.OpJump rfl _ _ hbsj1
+  obtain ⟨_, d1, d2, d3, d4, rfl, _⟩ := mk_w4 Compile.OpJump rfl _ _ hbsj2
+  obtain ⟨opb1, bs1, hopb1, hbs1, e4⟩ := changeOperand_inv hp1
+  have hsz2 : cs2.insts.size = cs.insts.size + 5 := by rw [e2]; simp
+  have hsz3 : cs3.insts.size = cs2.insts.size + 5 := by rw [e3]; simp
+  have hop1 : cs2.insts[cs.insts.size]? = some (UInt8.ofNat Compile.OpJump) := by
+    rw [e2]; exact emit_bytes (cs := cs) _ 0 (by simp)
+  have hop13 : cs3.insts[cs.insts.size]? = some (UInt8.ofNat Compile.OpJump) := getElem?_of_pre she2.pre hop1
+  have hopb1' : opb1 = UInt8.ofNat Compile.OpJump := by
+    rw [hjp1, hop13] at hopb1
+    injection hopb1 with h; exact h.symm
+  rw [hopb1'] at hbs1
+  obtain ⟨_, b1, b2, b3, b4, rfl, hdec1⟩ := mk_w4 Compile.OpJump rfl _ _ hbs1
+  simp only [Int.toNat_natCast] at hdec1
+  have hsz4 : cs4.insts.size = cs3.insts.size := by rw [e4]; exact Compile.size_patch _ _ _
+  have hins4 : cs4.insts = Compile.patch cs3.insts cs.insts.size [UInt8.ofNat Compile.OpJump, b1, b2, b3, b4] := by
+    rw [e4, hjp1]
+  have ht4 : cs4.tables = cs3.tables := by rw [e4]
+  have ht3 : cs3.tables = cs2.tables := by rw [she2.eq]
+  have ht2 : cs2.tables = cs.tables := by rw [she1.eq]
+  have hok4 : CsOK cs4 := hok3.of_tables ht4 (by rw [e4])
+  have hl4 : localIdx cs4 = localIdx cs := by
+    have : localIdx cs4 = localIdx cs3 := by rw [e4]; rfl
+    rw [this, she2.localIdx, she1.localIdx]
+  obtain ⟨seE, hok5, htlE, simE⟩ := hE cs4 cs5 hcf (by rw [hl4]; exact hcov) hok4
+  obtain ⟨opb2, bs2, hopb2, hbs2, e6⟩ := changeOperand_inv hc
+  have hle45 : cs4.insts.size ≤ cs5.insts.size := seE.pre.1
+  have hop2 : cs3.insts[cs2.insts.size]? = some (UInt8.ofNat Compile.OpJump) := by
+    rw [e3]; exact emit_bytes (cs := cs2) _ 0 (by simp)
+  have h4 : cs4.insts[cs2.insts.size]? = some (UInt8.ofNat Compile.OpJump) := by
+    rw [hins4, Compile.patch_get_ge _ _ _ _ (by simp; omega)]; exact hop2
+  have hop5 : cs5.insts[cs2.insts.size]? = some (UInt8.ofNat Compile.OpJump) := getElem?_of_pre seE.pre h4
+  have hopb2' : opb2 = UInt8.ofNat Compile.OpJump := by
+    rw [hjp2, hop5] at hopb2
+    injection hopb2 with h; exact h.symm
+  rw [hopb2'] at hbs2
+  obtain ⟨_, e1, e2', e3', e4', rfl, hdec2⟩ := mk_w4 Compile.OpJump rfl _ _ hbs2
+  have hsz' : cs'.insts.size = cs5.insts.size := by rw [e6]; exact Compile.size_patch _ _ _
+  have hins' : cs'.insts = Compile.patch cs5.insts cs2.insts.size [UInt8.ofNat Compile.OpJump, e1, e2', e3', e4'] := by
+    rw [e6, hjp2]
+  have se3 : StEff cs cs3 := (StEff.of_shape she1 hok.ne).trans (StEff.of_shape she2 hok2.ne)
+  have se4 : StEff cs cs4 := by rw [e4]; exact se3.patch _ _ (by rw [hjp1]; exact Nat.le_refl _)
+  have se5 : StEff cs cs5 := se4.trans seE
+  have hse : StEff cs cs' := by rw [e6]; exact se5.patch _ _ (by rw [hjp2]; omega)
+  have ht' : cs'.tables = cs5.tables := by rw [e6]
+  have htl : Tl cs.tables cs'.tables := by
+    rw [ht', ← ht2, ← ht3, ← ht4]; exact htlE
+  have hok' : CsOK cs' := hok5.of_tables ht' (by rw [e6])
+  refine ⟨hse, hok', htl, ?_⟩
+  intro fuel K code bp L env binds s t ss ss' cc env' t' hK hcode hvm hip hsp hL hst hdy hsem
+  try dsimp only at hsem
+  have hN := nextIndex_le_of hok hse hL
+  have hK5 : IsPre cs5.constants K := by
+    have : cs'.constants = cs5.constants := by rw [e6]
+    rw [← this]; exact hK
+  have hcj1 : ∀ k (hk : k < 5), code.insts[cs.insts.size + k]? =
+      [UInt8.ofNat Compile.OpJump, b1, b2, b3, b4][k]? := by
+    intro k hk
+    rw [hcode _ (by omega) (by omega), hins', Compile.patch_get_lt _ _ _ _ (by omega), seE.pre.2 _ (by omega), hins4]
+    exact Compile.patch_get_mid _ _ _ _ (by simpa using hk) (by simp; omega)
+  have hcf' : CodeHas code cs5.insts cs4.insts.size := by
+    intro i h1 h2
+    rw [hcode i (by omega) (by omega), hins', Compile.patch_get_ge _ _ _ _ (by simp; omega)]
+  obtain ⟨s4, hrun4, hs4, hh4, hip4, hsp4, hst4⟩ := step_jump F hvm.code cs.insts.size hip _ b1 b2 b3 b4
+    (by simpa using hcj1 0 (by omega)) rfl
+    (by simpa using hcj1 1 (by omega)) (by simpa using hcj1 2 (by omega))
+    (by simpa using hcj1 3 (by omega)) (by simpa using hcj1 4 (by omega))
+  rw [hdec1] at hip4
+  have hf : Frm s s4 bp L := ⟨hs4, hh4, by rw [hst4], fun j _ _ => by rw [hst4]⟩
+  have hvm4 := hvm.of_frm hf hsp4
+  have hdy4 : Dyn binds t s4 bp := ⟨fun i a hm => by
+      obtain ⟨h0, v, hv1, hv2, hv3⟩ := hdy.cell i a hm
+      exact ⟨by rw [hh4]; exact h0, v, hv1, by rw [hst4]; exact hv2, hv3⟩, hdy.rel.of_eq hh4⟩
+  have hni4 : nextIndex cs4.tables = nextIndex cs.tables := by rw [ht4, ht3, ht2]
+  obtain ⟨rfl, oe⟩ := simE fuel K code bp L env binds s4 t ss ss' cc env' t' hK5 hcf' hvm4 (by omega) (by omega)
+    (by rw [← ht']; exact hL) (by rw [hl4, hni4]; exact hst) hdy4 hsem
+  refine ⟨rfl, OutS.via (Reach.step hvm.abort hrun4) hf (by omega) (fun _ h => h) ?_⟩
+  have hni' : nextIndex cs'.tables = nextIndex cs.tables := htl.nextIndex
+  have hl' : localIdx cs' = localIdx cs := localIdx_of_tl htl
+  rw [hsz', hl', hni']
+  have hl5 : localIdx cs5 = localIdx cs := by rw [localIdx_of_tl htlE, hl4]
+  have hni5 : nextIndex cs5.tables = nextIndex cs.tables := by rw [htlE.nextIndex, hni4]
+  rw [hl5, hni5] at oe
+  exact oe
+
+theorem good_ifFalseStmt (F : FloatOps) (B : List String) (pos bp p : Pos) (body : List Stmt) :
+    GoodB F B 0 (compileStmt (.if_ pos none (.bool p false) bp body none))
+      (fun fuel env => Sem.execStmt F fuel env (.if_ pos none (.bool p false) bp body none)) := by
+  rw [Compile.compileStmt_eq]
+  simp only
+  refine good_withBlock F B B _ _ (fun _ env => pure (.normal, env)) _ (good_ifFalse F B pos).toC.pure_bind ?_
+  intro fuel env ss t c' env' ss' t' hsem
+  cases fuel with
+  | zero => exact (execStmt_zero' hsem).elim
+  | succ fuel =>
+    rw [execStmt_if] at hsem
+    obtain ⟨⟨c0, env1⟩, ss0, t0, h0, hsem⟩ := sm_bind_inv hsem
+    obtain ⟨hce, rfl, rfl⟩ := sm_pure_inv h0
+    simp only [Prod.mk.injEq] at hce
+    obtain ⟨rfl, rfl⟩ := hce
+    simp only at hsem
+    obtain ⟨rc, ss1, t1, hev, hsem⟩ := sm_bind_inv hsem
+    cases fuel with
+    | zero =>
+      have h0 : Sem.evalExpr F 0 ([] :: env) (.bool p false) = Sem.liftM (unsupported "sem: fuel") := rfl
+      rw [h0] at hev; exact (sm_unsupported_ne hev).elim
+    | succ f =>
+      have h1 : Sem.evalExpr F (f + 1) ([] :: env) (.bool p false) = pure (.val (.bool false)) := rfl
+      rw [h1] at hev
+      obtain ⟨hrc, rfl, rfl⟩ := sm_pure_inv hev
+      subst hrc
+      simp only at hsem
+      obtain ⟨fl, ss2, t2, hfl, hsem⟩ := sm_bind_inv hsem
+      obtain ⟨rfl, hfl'⟩ := sm_liftM_inv hfl
+      have hf : ∀ w : State, exec (isFalsy (.bool false)) w = (.ok true, w) := fun _ => rfl
+      rw [hf] at hfl'
+      simp only [Prod.mk.injEq, Except.ok.injEq] at hfl'
+      obtain ⟨rfl, rfl⟩ := hfl'
+      simp only [Bool.not_true, Bool.false_eq_true, if_false] at hsem
+      obtain ⟨hce, rfl, rfl⟩ := sm_pure_inv hsem
+      simp only [Prod.mk.injEq] at hce
+      obtain ⟨rfl, rfl⟩ := hce
+      exact ⟨rfl, 0, [] :: env, sm_pure_run _ _ _⟩
+
+theorem good_ifFalseElseStmt (F : FloatOps) (B : List String) (pos bp p : Pos) (body : List Stmt) (e : Stmt) (nE : Nat)
+    (hE : GoodB F B nE (compileStmt e) (fun fuel env => Sem.execStmt F fuel env e)) :
+    GoodB F B nE (compileStmt (.if_ pos none (.bool p false) bp body (some e)))
+      (fun fuel env => Sem.execStmt F fuel env (.if_ pos none (.bool p false) bp body (some e))) := by
+  rw [Compile.compileStmt_eq]
+  simp only
+  refine good_withBlock F B B _ _ (fun fuel env => Sem.execStmt F fuel env e) _
+    (good_ifFalseElse F B pos nE _ _ hE).toC.pure_bind ?_
+  intro fuel env ss t c' env' ss' t' hsem
+  cases fuel with
+  | zero => exact (execStmt_zero' hsem).elim
+  | succ fuel =>
+    rw [execStmt_if] at hsem
+    obtain ⟨⟨c0, env1⟩, ss0, t0, h0, hsem⟩ := sm_bind_inv hsem
+    obtain ⟨hce, rfl, rfl⟩ := sm_pure_inv h0
+    simp only [Prod.mk.injEq] at hce
+    obtain ⟨rfl, rfl⟩ := hce
+    simp only at hsem
+    obtain ⟨rc, ss1, t1, hev, hsem⟩ := sm_bind_inv hsem
+    cases fuel with
+    | zero =>
+      have h0 : Sem.evalExpr F 0 ([] :: env) (.bool p false) = Sem.liftM (unsupported "sem: fuel") := rfl
+      rw [h0] at hev; exact (sm_unsupported_ne hev).elim
+    | succ f =>
+      have h1 : Sem.evalExpr F (f + 1) ([] :: env) (.bool p false) = pure (.val (.bool false)) := rfl
+      rw [h1] at hev
+      obtain ⟨hrc, rfl, rfl⟩ := sm_pure_inv hev
+      subst hrc
+      simp only at hsem
+      obtain ⟨fl, ss2, t2, hfl, hsem⟩ := sm_bind_inv hsem
+      obtain ⟨rfl, hfl'⟩ := sm_liftM_inv hfl
+      have hf : ∀ w : State, exec (isFalsy (.bool false)) w = (.ok true, w) := fun _ => rfl
+      rw [hf] at hfl'
+      simp only [Prod.mk.injEq, Except.ok.injEq] at hfl'
+      obtain ⟨rfl, rfl⟩ := hfl'
+      simp only [Bool.not_true, Bool.false_eq_true, if_false] at hsem
+      obtain ⟨⟨c1, envX⟩, ss3, t3, hb, hsem⟩ := sm_bind_inv hsem
+      obtain ⟨hce, rfl, rfl⟩ := sm_pure_inv hsem
+      simp only [Prod.mk.injEq] at hce
+      obtain ⟨rfl, rfl⟩ := hce
+      exact ⟨rfl, f + 1, envX, hb⟩
+
+/-! ### `var` groups: a list of specifications, each one name with or without a value -/
+
+theorem specF_inv {B : List String} {sp : Spec} (h : specF B sp = true) :
+    (∃ iota ipos x e, sp = (iota, [(ipos, x)], [some e]) ∧ ExprF (bnd B) e = true ∧ x ≠ "_") ∨
+    (∃ iota ipos x, sp = (iota, [(ipos, x)], []) ∧ x ≠ "_") := by
+  unfold specF at h
+  split at h
+  · simp only [Bool.and_eq_true] at h
+    exact .inl ⟨_, _, _, _, rfl, h.1, by simpa using h.2⟩
+  · exact .inr ⟨_, _, _, rfl, by simpa using h⟩
+  · cases h
+
+theorem compileValueSpecs_nil (pos : Pos) (tok : Nat) (last : Option (Compile.CM Unit × Compile.VSum)) :
+    Compile.compileValueSpecs pos tok [] last = pure () := by
+  unfold Compile.compileValueSpecs; rfl
+
+theorem compileValueSpecs_var1 (pos : Pos) (iota : Option Nat) (ipos : Pos) (x : String) (e : Expr) (rest : List Spec)
+    (last : Option (Compile.CM Unit × Compile.VSum)) :
+    Compile.compileValueSpecs pos tVar ((iota, [(ipos, x)], [some e]) :: rest) last =
+      ((do compileExpr e; Compile.compileDefine pos x false tVar) >>= fun _ =>
+        Compile.compileValueSpecs pos tVar rest (some (compileExpr e, Compile.vsumOf e))) := by
+  conv => lhs; unfold Compile.compileValueSpecs
+  unfold Compile.compileValueIdents
+  unfold Compile.compileValueIdents
+  simp [Compile.compileValueIdent, tVar, tConst, Gen.tok_Var, Gen.tok_Const]
+
+theorem compileValueSpecs_var0 (pos : Pos) (iota : Option Nat) (ipos : Pos) (x : String) (rest : List Spec)
+    (last : Option (Compile.CM Unit × Compile.VSum)) :
+    Compile.compileValueSpecs pos tVar ((iota, [(ipos, x)], []) :: rest) last =
+      ((do compileExpr (.undef ipos); Compile.compileDefine pos x false tVar) >>= fun _ =>
+        Compile.compileValueSpecs pos tVar rest last) := by
+  rw [compileExpr_undef]
+  conv => lhs; unfold Compile.compileValueSpecs
+  unfold Compile.compileValueIdents
+  unfold Compile.compileIdentsNoValue
+  unfold Compile.compileIdentsNoValue
+  simp [Compile.compileValueIdent, tVar, tConst, Gen.tok_Var, Gen.tok_Const]
+/-- two compile actions in sequence against two reference computations in sequence, with fuels of their own -/
+theorem good_seqF (F : FloatOps) (B B1 B2 : List String) (n1 n2 : Nat) (act1 act2 : Compile.CM Unit)
+    (sem1 sem2 : Nat → Sem.Env → Sem.SM (Sem.Comp × Sem.Env)) (g1 g2 : Nat → Nat)
+    (h1 : GoodC F B B1 n1 act1 sem1) (h2 : GoodC F B1 B2 n2 act2 sem2) :
+    GoodC F B B2 (max n1 n2) (act1 >>= fun _ => act2) (fun fuel env => do
+      let (c, env') ← sem1 (g1 fuel) env
+      match c with
+      | .normal => sem2 (g2 fuel) env'
+      | c => pure (c, env')) :=
+  good_seq F B B1 B2 n1 n2 act1 act2 (fun fuel => sem1 (g1 fuel)) (fun fuel => sem2 (g2 fuel))
+    (fun cs cs' hc hcov hok => by
+      obtain ⟨a, b, c, d⟩ := h1 cs cs' hc hcov hok
+      exact ⟨a, b, c, fun fuel => d (g1 fuel)⟩)
+    (fun cs cs' hc hcov hok => by
+      obtain ⟨a, b, c, d⟩ := h2 cs cs' hc hcov hok
+      exact ⟨a, b, c, fun fuel => d (g2 fuel)⟩)
+
+theorem declRun_var1 (F : FloatOps) (x : String) (e : Expr) (iota : Option Nat) (ipos : Pos) (lastE : Option Expr)
+    {fuel : Nat} {env : Sem.Env} {ss : Sem.SemSt} {t : State} {c : Sem.Comp} {env' : Sem.Env} {ss' : Sem.SemSt} {t' : State}
+    (hsem : exec ((Sem.execValueSpecs F fuel env tVar [(iota, [(ipos, x)], [some e])] lastE).run ss) t =
+      (.ok ((c, env'), ss'), t')) :
+    DeclRun F x e env ss t c env' ss' t' := by
+  cases fuel with
+  | zero => rw [execValueSpecs_zero] at hsem; exact (sm_unsupported_ne hsem).elim
+  | succ fuel =>
+    rw [execValueSpecs_cons] at hsem
+    obtain ⟨⟨c1, env1, last1⟩, ss1, t1, hid, hsem⟩ := sm_bind_inv hsem
+    cases fuel with
+    | zero => rw [execIdents_zero] at hid; exact (sm_unsupported_ne hid).elim
+    | succ fuel =>
+      rw [execIdents_var1] at hid
+      obtain ⟨envI, ss0, t0, hpure, hid⟩ := sm_bind_inv hid
+      obtain ⟨rfl, rfl, rfl⟩ := sm_pure_inv hpure
+      obtain ⟨rr, ss2, t2, hev, hid⟩ := sm_bind_inv hid
+      refine ⟨fuel, [] :: env, rr, ss2, t2, fun n => lookupEnv_nil_cons n env, hev, ?_⟩
+      cases rr with
+      | thr a =>
+        obtain ⟨hce, rfl, rfl⟩ := sm_pure_inv hid
+        simp only [Prod.mk.injEq] at hce
+        obtain ⟨rfl, rfl, rfl⟩ := hce
+        simp only at hsem
+        obtain ⟨hce, rfl, rfl⟩ := sm_pure_inv hsem
+        simp only [Prod.mk.injEq] at hce
+        exact ⟨hce.1.symm, hce.2.symm, rfl, rfl⟩
+      | val v =>
+        simp only at hid
+        obtain ⟨envd, ss3, t3, hdec, hid⟩ := sm_bind_inv hid
+        cases fuel with
+        | zero => rw [execIdents_zero] at hid; exact (sm_unsupported_ne hid).elim
+        | succ fuel =>
+          rw [execIdents_nil] at hid
+          obtain ⟨hce, rfl, rfl⟩ := sm_pure_inv hid
+          simp only [Prod.mk.injEq] at hce
+          obtain ⟨rfl, rfl, rfl⟩ := hce
+          simp only at hsem
+          rw [execValueSpecs_nil] at hsem
+          obtain ⟨hce, rfl, rfl⟩ := sm_pure_inv hsem
+          simp only [Prod.mk.injEq] at hce
+          obtain ⟨rfl, rfl⟩ := hce
+          exact ⟨rfl, hdec⟩
+
+theorem declRun_var0 (F : FloatOps) (x : String) (iota : Option Nat) (ipos : Pos) (lastE : Option Expr)
+    {fuel : Nat} {env : Sem.Env} {ss : Sem.SemSt} {t : State} {c : Sem.Comp} {env' : Sem.Env} {ss' : Sem.SemSt} {t' : State}
+    (hsem : exec ((Sem.execValueSpecs F fuel env tVar [(iota, [(ipos, x)], [])] lastE).run ss) t =
+      (.ok ((c, env'), ss'), t')) :
+    DeclRun F x (.undef ipos) env ss t c env' ss' t' := by
+  cases fuel with
+  | zero => rw [execValueSpecs_zero] at hsem; exact (sm_unsupported_ne hsem).elim
+  | succ fuel =>
+    rw [execValueSpecs_cons] at hsem
+    obtain ⟨⟨c1, env1, last1⟩, ss1, t1, hid, hsem⟩ := sm_bind_inv hsem
+    cases fuel with
+    | zero => rw [execIdents_zero] at hid; exact (sm_unsupported_ne hid).elim
+    | succ fuel =>
+      rw [execIdents_var0] at hid
+      obtain ⟨envI, ss0, t0, hpure, hid⟩ := sm_bind_inv hid
+      obtain ⟨rfl, rfl, rfl⟩ := sm_pure_inv hpure
+      obtain ⟨rr, ss2, t2, hev, hid⟩ := sm_bind_inv hid
+      refine ⟨fuel, [] :: env, rr, ss2, t2, fun n => lookupEnv_nil_cons n env, hev, ?_⟩
+      cases rr with
+      | thr a =>
+        obtain ⟨hce, rfl, rfl⟩ := sm_pure_inv hid
+        simp only [Prod.mk.injEq] at hce
+        obtain ⟨rfl, rfl, rfl⟩ := hce
+        simp only at hsem
+        obtain ⟨hce, rfl, rfl⟩ := sm_pure_inv hsem
+        simp only [Prod.mk.injEq] at hce
+        exact ⟨hce.1.symm, hce.2.symm, rfl, rfl⟩
+      | val v =>
+        simp only at hid
+        obtain ⟨envd, ss3, t3, hdec, hid⟩ := sm_bind_inv hid
+        cases fuel with
+        | zero => rw [execIdents_zero] at hid; exact (sm_unsupported_ne hid).elim
+        | succ fuel =>
+          rw [execIdents_nil] at hid
+          obtain ⟨hce, rfl, rfl⟩ := sm_pure_inv hid
+          simp only [Prod.mk.injEq] at hce
+          obtain ⟨rfl, rfl, rfl⟩ := hce
+          simp only at hsem
+          rw [execValueSpecs_nil] at hsem
+          obtain ⟨hce, rfl, rfl⟩ := sm_pure_inv hsem
+          simp only [Prod.mk.injEq] at hce
+          obtain ⟨rfl, rfl⟩ := hce
+          exact ⟨rfl, hdec⟩
+
+/-- what `execIdents` hands on as `last` after one identifier with a value / without a value -/
+theorem execIdents_last1 (F : FloatOps) {f : Nat} {env : Sem.Env} {iota : Option Nat} {ipos : Pos} {x : String} {e : Expr}
+    {lastE : Option Expr} {ss ss1 : Sem.SemSt} {t t1 : State} {env1 : Sem.Env} {last1 : Option Expr}
+    (hid : exec ((Sem.execIdents F f env tVar iota [(ipos, x)] [some e] lastE).run ss) t =
+      (.ok ((.normal, env1, last1), ss1), t1)) : last1 = some e ∧ 2 ≤ f := by
+  cases f with
+  | zero => rw [execIdents_zero] at hid; exact (sm_unsupported_ne hid).elim
+  | succ f =>
+    rw [execIdents_var1] at hid
+    obtain ⟨envI, ss0, t0, hpure, hid⟩ := sm_bind_inv hid
+    obtain ⟨rr, ss2, t2, hev, hid⟩ := sm_bind_inv hid
+    cases rr with
+    | thr a =>
+      obtain ⟨hce, _, _⟩ := sm_pure_inv hid
+      simp only [Prod.mk.injEq] at hce
+      cases hce.1
+    | val v =>
+      simp only at hid
+      obtain ⟨envd, ss3, t3, hdec, hid⟩ := sm_bind_inv hid
+      cases f with
+      | zero => rw [execIdents_zero] at hid; exact (sm_unsupported_ne hid).elim
+      | succ f =>
+        rw [execIdents_nil] at hid
+        obtain ⟨hce, _, _⟩ := sm_pure_inv hid
+        simp only [Prod.mk.injEq] at hce
+        exact ⟨hce.2.2.symm, by omega⟩
+
+theorem execIdents_last0 (F : FloatOps) {f : Nat} {env : Sem.Env} {iota : Option Nat} {ipos : Pos} {x : String}
+    {lastE : Option Expr} {ss ss1 : Sem.SemSt} {t t1 : State} {env1 : Sem.Env} {last1 : Option Expr}
+    (hid : exec ((Sem.execIdents F f env tVar iota [(ipos, x)] [] lastE).run ss) t =
+      (.ok ((.normal, env1, last1), ss1), t1)) : last1 = lastE ∧ 2 ≤ f := by
+  cases f with
+  | zero => rw [execIdents_zero] at hid; exact (sm_unsupported_ne hid).elim
+  | succ f =>
+    rw [execIdents_var0] at hid
+    obtain ⟨envI, ss0, t0, hpure, hid⟩ := sm_bind_inv hid
+    obtain ⟨rr, ss2, t2, hev, hid⟩ := sm_bind_inv hid
+    cases rr with
+    | thr a =>
+      obtain ⟨hce, _, _⟩ := sm_pure_inv hid
+      simp only [Prod.mk.injEq] at hce
+      cases hce.1
+    | val v =>
+      simp only at hid
+      obtain ⟨envd, ss3, t3, hdec, hid⟩ := sm_bind_inv hid
+      cases f with
+      | zero => rw [execIdents_zero] at hid; exact (sm_unsupported_ne hid).elim
+      | succ f =>
+        rw [execIdents_nil] at hid
+        obtain ⟨hce, _, _⟩ := sm_pure_inv hid
+        simp only [Prod.mk.injEq] at hce
+        exact ⟨hce.2.2.symm, by omega⟩
+
+/-- the first specification alone, then the others: a run of the whole group is such a run -/
+theorem specs_split (F : FloatOps) (sp : Spec) (rest : List Spec) (lastE lastE2 : Option Expr)
+    (hlast : ∀ f env ss t env1 last1 ss1 t1, exec ((Sem.execIdents F f env tVar sp.1 sp.2.1 sp.2.2 lastE).run ss) t =
+      (.ok ((.normal, env1, last1), ss1), t1) → last1 = lastE2 ∧ 2 ≤ f)
+    (fuel : Nat) (env : Sem.Env) (ss : Sem.SemSt) (t : State) (r : Sem.Comp × Sem.Env) (ss' : Sem.SemSt) (t' : State)
+    (hsem : exec ((Sem.execValueSpecs F fuel env tVar (sp :: rest) lastE).run ss) t = (.ok (r, ss'), t')) :
+    ∃ fuel', exec ((do
+      let (c, env') ← Sem.execValueSpecs F (fuel' + 1) env tVar [sp] lastE
+      match c with
+      | .normal => Sem.execValueSpecs F fuel' env' tVar rest lastE2
+      | c => pure (c, env') : Sem.SM (Sem.Comp × Sem.Env)).run ss) t = (.ok (r, ss'), t') := by
+  obtain ⟨iota, ids, vals⟩ := sp
+  cases fuel with
+  | zero => rw [execValueSpecs_zero] at hsem; exact (sm_unsupported_ne hsem).elim
+  | succ f =>
+    rw [execValueSpecs_cons] at hsem
+    obtain ⟨⟨c1, env1, last1⟩, ss1, t1, hid, hsem⟩ := sm_bind_inv hsem
+    refine ⟨f, ?_⟩
+    have h1 : exec ((Sem.execValueSpecs F (f + 1) env tVar [(iota, ids, vals)] lastE).run ss) t =
+        (.ok ((c1, env1), ss1), t1) := by
+      rw [execValueSpecs_cons, sm_bind_run hid]
+      cases c1 with
+      | normal =>
+        simp only
+        obtain ⟨_, hf⟩ := hlast f env ss t env1 last1 ss1 t1 hid
+        obtain ⟨g, rfl⟩ : ∃ g, f = g + 1 := ⟨f - 1, by omega⟩
+        rw [execValueSpecs_nil]
+        exact sm_pure_run _ _ _
+      | brk => exact sm_pure_run _ _ _
+      | cont => exact sm_pure_run _ _ _
+      | ret v => exact sm_pure_run _ _ _
+      | thr a => exact sm_pure_run _ _ _
+    rw [sm_bind_run h1]
+    cases c1 with
+    | normal =>
+      simp only at hsem ⊢
+      obtain ⟨hl, _⟩ := hlast f env ss t env1 last1 ss1 t1 hid
+      rw [← hl]; exact hsem
+    | brk => exact hsem
+    | cont => exact hsem
+    | ret v => exact hsem
+    | thr a => exact hsem
+
+theorem good_specs (F : FloatOps) (pos : Pos) : ∀ (specs : List Spec) (B : List String), specsF B specs = true →
+    ∀ (last : Option (Compile.CM Unit × Compile.VSum)) (lastE : Option Expr),
+    GoodC F B (defsSpecs B specs) (needSpecs specs) (Compile.compileValueSpecs pos tVar specs last)
+      (fun fuel env => Sem.execValueSpecs F fuel env tVar specs lastE)
+  | [], B, _, last, lastE => by
+    rw [compileValueSpecs_nil]
+    refine (good_skip F B _ ?_).toC
+    intro fuel env ss t c env' ss' t' hsem
+    cases fuel with
+    | zero => rw [execValueSpecs_zero] at hsem; exact (sm_unsupported_ne hsem).elim
+    | succ fuel =>
+      rw [execValueSpecs_nil] at hsem
+      obtain ⟨hce, rfl, rfl⟩ := sm_pure_inv hsem
+      simp only [Prod.mk.injEq] at hce
+      exact ⟨hce.1.symm, hce.2.symm, rfl, rfl⟩
+  | sp :: rest, B, h, last, lastE => by
+    have h' : specF B sp = true ∧ specsF (defsSpec B sp) rest = true := by
+      have : specsF B (sp :: rest) = (specF B sp && specsF (defsSpec B sp) rest) := rfl
+      rw [this, Bool.and_eq_true] at h; exact h
+    rcases specF_inv h'.1 with ⟨iota, ipos, x, e, rfl, hF, hx⟩ | ⟨iota, ipos, x, rfl, hx⟩
+    · rw [compileValueSpecs_var1]
+      have ih := good_specs F pos rest (x :: B) h'.2 (some (compileExpr e, Compile.vsumOf e)) (some e)
+      have h1 : GoodC F B (x :: B) (need e + 1) (do compileExpr e; Compile.compileDefine pos x false tVar)
+          (fun fuel env => Sem.execValueSpecs F fuel env tVar [(iota, [(ipos, x)], [some e])] lastE) :=
+        good_defineCore F B pos x e hF hx _ (fun fuel env ss t c env' ss' t' h => declRun_var1 F x e iota ipos lastE h)
+      have hs := good_seqF F B (x :: B) _ _ _ _ _ _ _ (· + 1) id h1 ih
+      refine hs.resem ?_
+      intro fuel env ss t r ss' t' hsem
+      exact specs_split F _ rest lastE (some e) (fun f env ss t env1 last1 ss1 t1 h => execIdents_last1 F h)
+        fuel env ss t r ss' t' hsem
+    · rw [compileValueSpecs_var0]
+      have ih := good_specs F pos rest (x :: B) h'.2 last lastE
+      have h1 : GoodC F B (x :: B) 2 (do compileExpr (.undef ipos); Compile.compileDefine pos x false tVar)
+          (fun fuel env => Sem.execValueSpecs F fuel env tVar [(iota, [(ipos, x)], [])] lastE) :=
+        good_defineCore F B pos x (.undef ipos) rfl hx _
+          (fun fuel env ss t c env' ss' t' h => declRun_var0 F x iota ipos lastE h)
+      have hs := good_seqF F B (x :: B) _ _ _ _ _ _ _ (· + 1) id h1 ih
+      refine hs.resem ?_
+      intro fuel env ss t r ss' t' hsem
+      exact specs_split F _ rest lastE lastE (fun f env ss t env1 last1 ss1 t1 h => execIdents_last0 F h)
+        fuel env ss t r ss' t' hsem
+
+theorem compileStmt_varGroup (pos : Pos) (sp : Spec) (rest : List Spec) :
+    compileStmt (.declValue pos tVar (sp :: rest)) = Compile.compileValueSpecs pos tVar (sp :: rest) none := by
+  rw [Compile.compileStmt_eq]
+  simp [tVar, tConst, Gen.tok_Var, Gen.tok_Const]
+
+theorem good_varGroup (F : FloatOps) (B : List String) (pos : Pos) (specs : List Spec) (hne : specs.isEmpty = false)
+    (h : specsF B specs = true) :
+    GoodC F B (defsSpecs B specs) (needSpecs specs) (compileStmt (.declValue pos tVar specs))
+      (fun fuel env => Sem.execStmt F fuel env (.declValue pos tVar specs)) := by
+  cases specs with
+  | nil => simp at hne
+  | cons sp rest =>
+    rw [compileStmt_varGroup]
+    refine (good_specs F pos (sp :: rest) B h none none).resem ?_
+    intro fuel env ss t r ss' t' hsem
+    cases fuel with
+    | zero => exact (execStmt_zero' hsem).elim
+    | succ fuel => rw [execStmt_var] at hsem; exact ⟨fuel, hsem⟩
+
 end UgoVerif.CompSim
